@@ -1154,6 +1154,18 @@ def gen_eq(rng, n, kts=("k256", "libsecp", "ed", "comb")):
                       {"op": "call", "h": "m", "m": "insert_raw_rlp", "args": {"key": B("idx"), "raw": smug}, "signer": own, "obs": "full"},
                       {"op": "decode", "h": "m2", "kt": kt, "input": {"from": "m"}, "tag": "eq_redecode_smuggled", "obs": "full"},
                       {"op": "compare", "a": "m", "b": "m2"}]
+        # failing updates made with ANOTHER key must leave the record equal to its clone in every respect:
+        # a record at the 300-byte limit whose sequence number cannot grow, and (traced key types) a signer fault
+        big = pad_to(rng, [1], [p for p in rec["pairs"] if bytes(p[0]) != b"zpad"], 300)
+        if big:
+            steps += [{"op": "decode", "h": "f", "kt": kt, "input": {"rec": {"seq": [1], "pairs": big, "sig": {"by": own}}}, "tag": "eq_full_record"},
+                      {"op": "clone", "h": "fc", "from": "f"},
+                      {"op": "call", "h": "f", "m": "set_seq", "args": {"seq": [255] * 8}, "signer": other},
+                      {"op": "compare", "a": "f", "b": "fc"},
+                      {"op": "call", "h": "f", "m": "insert", "args": {"key": B("q"), "val": {"ty": "bytes", "v": [1, 2, 3]}}, "signer": other},
+                      {"op": "compare", "a": "f", "b": "fc"},
+                      {"op": "call", "h": "f", "m": "set_udp_socket", "args": {"ip": [0] * 15 + [1], "port": 9}, "signer": other},
+                      {"op": "compare", "a": "f", "b": "fc"}]
         hs = ["a", "c", "d", "s", "e1", "e2", "q", "k", "i", "p", "p2"]
         for x in hs:
             for y in hs:
@@ -1164,6 +1176,27 @@ def gen_eq(rng, n, kts=("k256", "libsecp", "ed", "comb")):
 
 
 # ---------------------------------------------------------------- C11: cross back-end agreement
+def gen_eq_fault(rng, n):
+    """failing updates (injected signer fault) with another key, then comparison with a clone taken before"""
+    sid = Sid("eqf")
+    out = []
+    for i in range(n):
+        kt = ["wk256", "wed", "wcomb", "wlibsecp"][i % 4]
+        sigs = [x for x in signers_for(kt)]
+        own = rng.choice(sigs)
+        other = rng.choice([x for x in sigs if scheme_of(x) == scheme_of(own) and x != own])
+        steps = [{"op": "build", "h": "a", "kt": kt, "signer": own, "calls": builder_calls(rng, hard=False)},
+                 {"op": "clone", "h": "c", "from": "a"}]
+        for _ in range(4):
+            c, _s = rand_call(rng, kt, other, [], hard=False)
+            c["h"] = "a"
+            c["fault"] = 1
+            steps.append(c)
+            steps.append({"op": "compare", "a": "a", "b": "c"})
+        out.append({"sid": sid(), "steps": steps})
+    return out
+
+
 def gen_cross(rng, n):
     """records built / updated through each back-end, re-decoded under every key type"""
     sid = Sid("cross")
